@@ -142,7 +142,7 @@ func circText(c circRow) string {
 }
 
 // neuralbondToBasm runs the real neuralbond on a network file and returns the .basm text it writes.
-func neuralbondToBasm(tools, dir string, net []byte, env []string) (string, error) {
+func neuralbondToBasm(tools, dir string, net []byte, env []string, extra ...string) (string, error) {
 	bin, err := buildTool(tools, "neuralbond")
 	if err != nil {
 		return "", err
@@ -151,8 +151,8 @@ func neuralbondToBasm(tools, dir string, net []byte, env []string) (string, erro
 	os.Remove(filepath.Join(dir, "out.basm"))
 	os.WriteFile(filepath.Join(dir, "net.json"), net, 0o644)
 	os.WriteFile(filepath.Join(dir, "cfg.json"), []byte(`{"Params":{"expprec":"2"}}`), 0o644)
-	out, err := runTool(dir, env, 60*time.Second, bin, "-net-file", "net.json", "-config-file", "cfg.json", "-neuron-lib-path", filepath.Join(repoDir(), "library", "neurons"),
-		"-save-basm", "out.basm", "-register-size", "32")
+	out, err := runTool(dir, env, 60*time.Second, bin, append([]string{"-net-file", "net.json", "-config-file", "cfg.json", "-neuron-lib-path", filepath.Join(repoDir(), "library", "neurons")},
+		append([]string{"-save-basm", "out.basm", "-register-size", "32"}, extra...)...)...)
 	if err != nil {
 		return "", fmt.Errorf("neuralbond: %v: %s", err, tailStr(out, 400))
 	}
